@@ -10,7 +10,7 @@ import loader, models, interp
 from interp import Machine, SliceRef, RStr, Ptr, Struct, Enum, Opaque, BoxObj, VecObj, Tuple, Unsupported, RustPanic, PathAbort, UNIT
 from models import model, Some, NONE, Ok, Err, deref, as_list
 
-ALPHA_FULL = [0x61, 0x20, 0x0A, 0x09, 0x27, 0x22, 0x5C, 0xA0, 0x0B, 0x85, 0x0C, 0x0D]      # a, blank, newline, tab, ', ", backslash, 0xA0, VT, 0x85, FF, CR
+ALPHA_FULL = [0x61, 0x20, 0x0A, 0x09, 0x27, 0x22, 0x5C, 0xA0, 0x0B, 0x85, 0x0C, 0x0D, 0xC3]      # a, blank, newline, tab, quotes, backslash, 0xA0, VT, 0x85, FF, CR, 0xC3 (C3 A0 is a two-byte character, each alone is not UTF-8)
 ALPHA_SMALL = [0x61, 0x20, 0x0A, 0x27, 0x5C]
 
 
@@ -59,12 +59,95 @@ def _is_ws(m, args, raw):
     return z3.Or([c == v for v in (0x20, 0x09, 0x0A, 0x0C, 0x0D)])
 
 
-@model("String::from_utf8_lossy", "Cow::into_owned", "^<String as Into(<.*>)?>::into$")
+@model("Cow::into_owned", "^<String as Into(<.*>)?>::into$", "^<Vec<u8> as Into(<.*>)?>::into$")
 def _bytes_identity(m, args, raw):
     v = deref(args[0])
     if isinstance(v, SliceRef):
         return Struct("Bytes", [list(v.items[v.start:v.end])])
     return v
+
+
+@model("slice::to_vec", "<[u8] as ToOwned>::to_owned", "<OsString as OsStringExt>::from_vec", "OsStringExt::from_vec", "<OsStr as OsStrExt>::from_bytes", "OsStrExt::from_bytes",
+       "<OsStr as ToOwned>::to_owned", "OsStr::to_os_string")
+def _bytes_raw(m, args, raw):
+    """conversions that keep the bytes as they are (std's contract for the unix OsString extension traits)"""
+    v = deref(args[0])
+    if isinstance(v, SliceRef):
+        return Struct("Bytes", [list(v.items[v.start:v.end])])
+    if isinstance(v, VecObj):
+        return Struct("Bytes", [list(v.items)])
+    return v
+
+
+def _bytes_of(v):
+    v = deref(v)
+    if isinstance(v, Struct) and v.ty == "Bytes":
+        return v.fields[0]
+    if isinstance(v, SliceRef):
+        return list(v.items[v.start:v.end])
+    if isinstance(v, VecObj):
+        return list(v.items)
+    raise Unsupported("bytes of %r" % (v,))
+
+
+@model("String::new")
+def _string_new(m, args, raw):
+    return Struct("Bytes", [[]])
+
+
+@model("String::push_str")
+def _string_push_str(m, args, raw):
+    deref(args[0]).fields[0].extend(_bytes_of(args[1]))
+    return UNIT
+
+
+@model("String::is_empty", "String::len", "str::is_empty", "str::len")
+def _string_len(m, args, raw):
+    n = len(_bytes_of(args[0]))
+    return n == 0 if raw.endswith("is_empty") else n
+
+
+@model("<Cow as Deref>::deref", "<String as Deref>::deref", "String::as_str", "<Cow as AsRef>::as_ref")
+def _string_deref(m, args, raw):
+    return deref(args[0])
+
+
+@model("String::from_utf8_lossy")
+def _from_utf8_lossy(m, args, raw):
+    """std's contract: valid UTF-8 is kept, every maximal invalid sequence becomes U+FFFD (EF BF BD).  A byte below 0x80 stays as it is whatever its
+    neighbours are, so it is not pinned; a byte >= 0x80 is pinned (the path forks over the alphabet's non-ASCII members) and decoded with its neighbours."""
+    v = deref(args[0])
+    items = list(v.items[v.start:v.end]) if isinstance(v, SliceRef) else list(v.items)
+    conc = []
+    for b in items:
+        if isinstance(b, int):
+            conc.append(b)
+        elif m.decide(interp._z(b) < 0x80):
+            conc.append(b)                       # some ASCII byte: unchanged by the conversion
+        else:
+            hi = sorted(a for a in getattr(m, "alphabet", []) if a >= 0x80)
+            val = m.decide_int(interp._z(b), hi)
+            if val is None:
+                raise Unsupported("from_utf8_lossy on a byte outside the alphabet")
+            conc.append(val)
+    out, i = [], 0
+    while i < len(conc):
+        b = conc[i]
+        if not isinstance(b, int) or b < 0x80:
+            out.append(b); i += 1
+            continue
+        need = 1 if 0xC2 <= b <= 0xDF else 2 if 0xE0 <= b <= 0xEF else 3 if 0xF0 <= b <= 0xF4 else 0
+        tail = conc[i + 1:i + 1 + need]
+        if need and len(tail) == need and all(isinstance(t, int) and 0x80 <= t <= 0xBF for t in tail):
+            try:
+                bytes([b] + tail).decode("utf-8")
+                out.extend([b] + tail); i += 1 + need
+                continue
+            except UnicodeDecodeError:
+                pass
+        # invalid: Rust replaces the maximal invalid prefix; for the alphabets used here (lone continuation bytes, a lead byte without its tail) that is one byte
+        out.extend([0xEF, 0xBF, 0xBD]); i += 1
+    return Struct("Bytes", [out])
 
 
 @model("Error::new", "Error::kind")
@@ -207,14 +290,37 @@ def explore(kind, n, alphabet, funcs, index, enums):
                 break
         return Ok(cnt)
 
-    natives = {"<R as Read>::read": read, "<BufReader as BufRead>::read_until": read_until}
+    def fill_buf(m, args):
+        """BufRead::fill_buf: what is left of the current chunk; when it is used up, the next read() result (a symbolic number of bytes)"""
+        if state["buf"][0] == state["buf"][1]:
+            left = n - state["pos"]
+            k = left
+            for cand in range(1, left):
+                if m.decide(state["chunkvars"][len(state["chunks"])] == cand):
+                    k = cand
+                    break
+            state["buf"] = [state["pos"], state["pos"] + k]
+            state["pos"] += k
+            if k:
+                state["chunks"].append(k)
+        return Ok(SliceRef(data, state["buf"][0], state["buf"][1]))
+
+    def consume(m, args):
+        k = args[1]
+        if not isinstance(k, int) or state["buf"][0] + k > state["buf"][1]:
+            raise Unsupported("consume(%r) beyond the buffer" % (k,))
+        state["buf"][0] += k
+        return UNIT
+
+    natives = {"<R as Read>::read": read, "<BufReader as BufRead>::read_until": read_until, "<BufReader as BufRead>::fill_buf": fill_buf, "<BufReader as BufRead>::consume": consume}
     m = Machine(funcs, index, enums, models, natives=natives, max_steps=2000000)
+    m.alphabet = alphabet
     m.base_constraints = [z3.Or([b == a for a in alphabet]) for b in data] + ([z3.Or([delim == a for a in alphabet])] if kind == "bytes" else [])
     m.pending = [[]]
     t0 = time.time()
     while m.pending:
         m.reset_path(m.pending.pop())
-        state.update(pos=0, chunks=[], chunkvars=[z3.Int("chunk%d" % i) for i in range(n + 1)])
+        state.update(pos=0, chunks=[], chunkvars=[z3.Int("chunk%d" % i) for i in range(n + 1)], buf=[0, 0])
         if kind == "ws":
             rd = [Struct("WhitespaceDelimitedArgumentReader", [Struct("ScriptRead", []), VecObj()])]
             key = "<WhitespaceDelimitedArgumentReader as ArgumentReader>::next"
